@@ -17,7 +17,8 @@ EXTENDS Naturals, Sequences, FiniteSets, TLC
 CONSTANTS Versions,      \* e.g. {1, 2}; version 0 is the initial pair
           MaxSteps,      \* writer steps
           ReAddOnRemove, \* TRUE as in handleEvent; FALSE = seeded mutant (non-vacuity)
-          Serialized     \* writer steps only at quiescent points
+          Serialized,    \* writer steps only at quiescent points
+          OnlyRotations  \* TRUE: the writer does nothing but rename valid versions over the files (rotations proper; deeper bound)
 Files == {"crt", "key"}
 Content == Versions \cup {0, 98, 99}   \* 98 = empty/truncated, 99 = garbage or mismatching
 
@@ -47,6 +48,7 @@ Emit(f, op) == IF watch[f] = ino[f] THEN Append(queue, <<op, f>>) ELSE queue
 \* ---- writer (environment) ----
 Calm == ~Serialized \/ (queue = <<>> /\ wpc = "idle")
 InPlace(f, c) ==  \* truncate / partial / full write on the inode at the path
+  /\ ~OnlyRotations
   /\ ~writerDone /\ steps < MaxSteps /\ Calm
   /\ content' = [content EXCEPT ![ino[f]] = c]
   /\ queue' = Emit(f, "WRITE")
@@ -55,6 +57,7 @@ InPlace(f, c) ==  \* truncate / partial / full write on the inode at the path
   /\ UNCHANGED <<ino, nextIno, watch, writerDone, wpc, wev, rc, rk, current>>
 
 RenameOver(f, c) ==  \* new inode prepared elsewhere, renamed over the path; old inode freed
+  /\ (OnlyRotations => c \in Versions)
   /\ ~writerDone /\ steps < MaxSteps /\ Calm
   /\ content' = content @@ (nextIno :> c)
   /\ ino' = [ino EXCEPT ![f] = nextIno]
